@@ -3,6 +3,8 @@ fn main() {
     simx::exec::install_panic_hook();
     let code = match args.prop.as_str() {
         "C01" => simx::c01::run_check(&args),
+        "C02" => simx::c02::run_check(&args),
+        "C16" => simx::c16::run_check(&args),
         p => vx::machinery(&format!("simx does not serve {p}")),
     };
     std::process::exit(code)
